@@ -528,6 +528,25 @@ pub fn message_case(e: &Entry, decls: &[Decl], units: &[String], buf: &mut Vec<u
     }
 }
 
+/// The emitted tree carries the macro's command ids, the specified one declaration indices. How
+/// the macro numbers its commands is its own business (which handler an id runs is observed end
+/// to end through `run`): the trees agree if they have the same (path, kind) entries and the ids
+/// correspond one to one to the declarations.
+fn same_up_to_renumbering(emitted: &Trie, spec: &Trie) -> bool {
+    if emitted.len() != spec.len() {
+        return false;
+    }
+    let mut fwd: BTreeMap<usize, usize> = BTreeMap::new();
+    let mut back: BTreeMap<usize, usize> = BTreeMap::new();
+    for (k, id) in emitted {
+        let Some(d) = spec.get(k) else { return false };
+        if *fwd.entry(*id).or_insert(*d) != *d || *back.entry(*d).or_insert(*id) != *id {
+            return false;
+        }
+    }
+    true
+}
+
 /// Checks one compiled interface: emitted trie vs specification, and every
 /// header over the near-miss pool end to end through `run`.
 pub fn check_compiled(e: &Entry, max_levels: usize, full_budget: u64, g: &mut Groups, st: &mut CompiledStats) {
@@ -539,7 +558,7 @@ pub fn check_compiled(e: &Entry, max_levels: usize, full_budget: u64, g: &mut Gr
     let spec = spec_trie(&decls);
     let emitted = only_reachable(&emitted_trie((e.root)()));
     st.trie_entries += spec.len() as u64;
-    if emitted != spec {
+    if !same_up_to_renumbering(&emitted, &spec) {
         let f = vec![("property", "C01".to_string()), ("kind", "emitted-static-tree-differs".to_string()), ("std_cmds", e.std_cmds.to_string()), ("err_cmds", e.err_cmds.to_string())];
         g.add("compiled-trie", &f, (texts.len() * 1000 + name_b.len(), name_b), || {
             let missing: Vec<_> = spec.iter().filter(|(k, v)| emitted.get(*k) != Some(v)).take(3).collect();
